@@ -194,6 +194,23 @@ static void do_insert(void)
 	}
 }
 
+/* offering a node that is already linked in the tree: its key is present, so the insert must
+ * fail and change nothing (not even the offered node itself) */
+static void do_reinsert(int pos)
+{
+	struct node *n = nodes[pos];
+	int ret;
+
+	sx_cover("avl.reinsert-linked-node");
+	if (n->an.left != NULL || n->an.right != NULL)
+		sx_cover("avl.reinsert-interior-node");
+	snapshot();
+	ret = iv_avl_tree_insert(&tree, &n->an);
+	sx_assert(ret < 0, "avl.dup-insert-must-fail");
+	check_unchanged();
+	check_tree(NULL);
+}
+
 static void do_delete(int pos)
 {
 	struct node *n = nodes[pos];
@@ -235,20 +252,28 @@ void sx_main(void)
 					sx_assume(nodes[a]->key < nodes[b]->key);
 		}
 		check_tree(NULL);	/* the constructed pre-state satisfies the invariant */
-		if (sx_choose(2) == 0 || nnodes == 0) {
-			sx_cover("avl.step-insert");
-			do_insert();
-		} else {
-			sx_cover("avl.step-delete");
-			do_delete(sx_choose(nnodes));
+		{
+			int op = nnodes == 0 ? 0 : sx_choose(3);
+			if (op == 0) {
+				sx_cover("avl.step-insert");
+				do_insert();
+			} else if (op == 1) {
+				sx_cover("avl.step-delete");
+				do_delete(sx_choose(nnodes));
+			} else {
+				do_reinsert(sx_choose(nnodes));
+			}
 		}
 	} else {
 		/* histories from empty */
 		for (i = 0; i < L; i++) {
-			if (nnodes == 0 || sx_choose(2) == 0)
+			int op = nnodes == 0 ? 0 : sx_choose(3);
+			if (op == 0)
 				do_insert();
-			else
+			else if (op == 1)
 				do_delete(sx_choose(nnodes));
+			else
+				do_reinsert(sx_choose(nnodes));
 		}
 		sx_cover("avl.history-complete");
 	}
